@@ -236,6 +236,29 @@ def build_corpus(seed, per_identity):
                     continue
                 lm = rng.choice((1, 2))
                 corpus.append(dict(op="ctor", data=enc.payload, labelmsm=lm, tag=identity, enc=enc, fails=False))
+    # twins whose 64-bit masks differ by 2**61 - 1: equal under Python's integer hash, different as masks (anything
+    # memoised on hash(...) of the masks instead of on the masks would confuse the two)
+    M61 = (1 << 61) - 1
+    for pre in refmsm.CONSTELLATION:
+        identity = pre + rng.choice("4567")
+        sat = sum(1 << b for b in rng.sample(range(64), 16))
+        sig = sum(1 << b for b in rng.sample(range(32), 4))
+        cm = (rng.getrandbits(61) | 1) & ~(7 << 61)
+        for cmask in (cm, cm + M61, cm + 2 * M61):
+            try:
+                enc = refmodel.build(identity, rng, "random", "small", "random",
+                                     force={"DF394": sat, "DF395": sig, "DF396": cmask})
+            except (refmodel.DefinitionError, KeyError):
+                continue
+            corpus.append(dict(op="ctor", data=enc.payload, labelmsm=1, tag=identity + ":hash-twin", enc=enc, fails=False))
+        smask = rng.getrandbits(60) | 1
+        for sm in (smask, smask + M61):
+            try:
+                enc = refmodel.build(pre + "1", rng, "random", "small", "random",
+                                     force={"DF394": sm, "DF395": 1 << rng.randrange(32), "DF396": (1 << 64) - 1})
+            except (refmodel.DefinitionError, KeyError):
+                continue
+            corpus.append(dict(op="ctor", data=enc.payload, labelmsm=1, tag=pre + "1:hash-twin", enc=enc, fails=False))
     # the largest MSM messages (64 satellites x 1 signal, all cells)
     for pre in refmsm.CONSTELLATION:
         for lvl in "57":
@@ -532,6 +555,14 @@ def run(ctx):
                 return
             ctx.hit("sequential_parses", 3)
             ctx.hit("validate_twin_pairs")
+    ht = [i for i, e in enumerate(corpus) if e["tag"].endswith(":hash-twin")]
+    for _ in range(3 if ctx.quick else 60):
+        for a, b in zip(ht, ht[1:]):
+            if corpus[a]["tag"] == corpus[b]["tag"]:
+                if not verify(a, None, "targeted") or not verify(b, a, "hash-twin") or not verify(a, b, "hash-twin"):
+                    return
+                ctx.hit("sequential_parses", 3)
+                ctx.hit("hash_twin_pairs")
     twins = [i for i, e in enumerate(corpus) if e["tag"] == "twin-good"]
     for _ in range(20 if ctx.quick else 400):
         for i in twins:
